@@ -142,7 +142,16 @@ def r3c_list_records_filter(P, rep, ctx, rule="C03.R3"):
     g = f.g
     loops = [n for n in g.nodes if n.kind == "for" and ".glob(" in f.x(n.stmt.iter)]
     if len(loops) != 1:
-        raise AnalysisError("C03.R3: glob loop of list_records not found")
+        # the same as a comprehension over the globbed files: its conditions are the filter
+        comps = [x for x in ast.walk(fi.node) if isinstance(x, (ast.ListComp, ast.SetComp, ast.GeneratorExp, ast.DictComp)) and any(".glob(" in norm(gen.iter) for gen in x.generators)]
+        if len(comps) != 1:
+            rep.info("C03.R3: list_records neither loops nor comprehends over the globbed files in a way the rule knows (no verdict)")
+            return
+        conds = [norm(c_) for gen in comps[0].generators for c_ in gen.ifs]
+        other = [c_ for c_ in conds if not any(k in c_ for k in ("re.match(", "re.fullmatch(", ".match(", ".fullmatch("))]
+        rep.check(not other, rule, fi.qual, "list_records keeps every file whose name has the container-name form (no further filter)", fi.loc(), construct="list_records filter",
+                  message=f"list_records decides about a file by `{'; '.join(o[:60] for o in other)}` besides the name pattern: records whose name begins like another record's name disappear from the listing")
+        return
     body_nodes = g.reach([b for b, lab in g.succ[loops[0].idx] if lab == "iter"], avoid=[loops[0].idx])
     tests = [n for n in g.nodes if n.idx in body_nodes and n.kind == "test"]
     other = [norm(f.xe_at(t.idx, t.exprs[0])) for t in tests if not any(k in norm(f.xe_at(t.idx, t.exprs[0])) for k in ("re.match(", "re.fullmatch(", ".match(", ".fullmatch("))]
